@@ -35,7 +35,7 @@ REAL = ["aiohomekit.protocol.perform_pair_setup_part1/part2", "aiohomekit.crypto
         "aiohomekit.controller.ip.discovery.IpDiscovery + HomeKitConnection (ip driver)", "aiohomekit.protocol.get_session_keys (cross-check)"]
 STUB = ["accessory (reference SetupResponder)", "transport: message pipe or simulated TCP", "entropy (os.urandom / key generation seams)"]
 ASSUMPTIONS = ["reference SRP follows RFC 5054 with fixed-width 384-byte A, B, S (HomeKit padding); HKDF labels and transcript orders from the HAP specification"]
-TIERS = {"quick": {"runs": 2200, "wall": 55}, "thorough": {"runs": 150000, "wall": 1500}}
+TIERS = {"quick": {"runs": 4000, "wall": 55}, "thorough": {"runs": 150000, "wall": 1500}}
 
 MUT_KINDS = [
     None, None, None,
